@@ -162,8 +162,18 @@ pub const C02_SCENS: &[Scen] = &[
     Scen::PollSetAsync,
     Scen::PollCloseAsync,
 ];
-pub const C03_SCENS: &[Scen] =
-    &[Scen::TwoLastClonesDropped, Scen::DropVsUpgrade, Scen::ThreeClonesDropped, Scen::DropUpgradePoll, Scen::IntoSharedVsPoll];
+pub const C03_SCENS: &[Scen] = &[
+    Scen::TwoLastClonesDropped,
+    Scen::DropVsUpgrade,
+    Scen::ThreeClonesDropped,
+    Scen::DropUpgradePoll,
+    Scen::IntoSharedVsPoll,
+    // the close racing with a poll: the stream must still end (the wake-up side of these is C02's)
+    Scen::PollCloseShared,
+    Scen::PollCloseUnique,
+    Scen::PollSetCloseShared,
+    Scen::PollCloseAsync,
+];
 
 fn run_scen(sc: Scen, prefix: &[usize]) -> (SchedRun, V) {
     match sc {
@@ -816,6 +826,71 @@ pub fn run_free_c02(prop: &str, p: &Params, n: u64) -> Outcome {
     });
     out.ev.add("pause_points_passed_in_free_mode", POINTS_HIT.load(AO::Relaxed) - pts0);
     out
+}
+
+/// the last handles of one SharedObservable are dropped by different threads at the same instant
+/// (spin barrier): exactly one of them must close, so the pending subscriber is woken and ends.
+fn round_last_drops(seed: u64, pm: u64) -> Result<(usize, usize), String> {
+    install_hook();
+    let mut rng = Rng::new(seed);
+    let n = rng.range(2, 3);
+    let with_upgrade = rng.chance(1, 3);
+    let inner = if small() { 4 } else { 20 };
+    let mut checked = 0usize;
+    for k in 0..inner {
+        let ob = SharedObservable::new(0u64);
+        let mut sub = ob.subscribe();
+        let (r, flag) = poll_stream_once(&mut sub);
+        if r != Poll::Pending {
+            return Err(format!("fresh subscriber answered {r:?}"));
+        }
+        let weak = ob.downgrade();
+        let gate = Arc::new(AtomicU64::new(0));
+        let mut hs = vec![];
+        let mut handles: Vec<SharedObservable<u64>> = (0..n - 1).map(|_| ob.clone()).collect();
+        handles.push(ob);
+        let total = handles.len() as u64 + with_upgrade as u64;
+        for (t, h) in handles.into_iter().enumerate() {
+            let gate = gate.clone();
+            let tseed = mix(seed, (k * 8 + t) as u64);
+            hs.push(std::thread::spawn(move || {
+                set_free_mode(tseed, pm);
+                gate.fetch_add(1, AO::SeqCst);
+                while gate.load(AO::SeqCst) < total {
+                    std::hint::spin_loop();
+                }
+                drop(h);
+                clear_mode();
+            }));
+        }
+        if with_upgrade {
+            let gate = gate.clone();
+            hs.push(std::thread::spawn(move || {
+                gate.fetch_add(1, AO::SeqCst);
+                while gate.load(AO::SeqCst) < total {
+                    std::hint::spin_loop();
+                }
+                // a temporary owner created and dropped while the others go away
+                drop(weak.upgrade());
+            }));
+        }
+        for h in hs {
+            h.join().map_err(|_| "thread panicked".to_string())?;
+        }
+        let (r2, _f) = poll_stream_once(&mut sub);
+        if r2 != Poll::Ready(None) {
+            return Err(format!(
+                "{n} threads dropped the last {n} clones at the same instant{}: every owner is gone but the subscriber answers {r2:?} (waker woken = {})",
+                if with_upgrade { " (and a fourth upgraded and dropped a weak reference)" } else { "" },
+                flag.woken()
+            ));
+        }
+        if !flag.woken() {
+            return Err("the last clones were dropped concurrently: the stream ended but the waker of the Pending poll was never woken".into());
+        }
+        checked += 1;
+    }
+    Ok((checked, n + with_upgrade as usize))
 }
 
 // ---------------------------------------------------------------------------------------------
@@ -1635,6 +1710,7 @@ pub fn run_c02(p: &Params) -> Outcome {
     if want(p, "threads") {
         out.merge(run_directed("C02", C02_SCENS, p, sched_budget(p, 400, 3000)));
         out.merge(run_free_c02("C02", p, p.n(1_500, 40_000)));
+        out.merge(run_rounds("C02", p, "last-drops-at-once", p.n(400, 10_000), round_last_drops));
     }
     out
 }
@@ -1647,6 +1723,7 @@ pub fn run_c03(p: &Params) -> Outcome {
     if want(p, "threads") {
         out.merge(run_directed("C03", C03_SCENS, p, sched_budget(p, 400, 3000)));
         out.merge(run_free_c02("C03", p, p.n(1_000, 30_000)));
+        out.merge(run_rounds("C03", p, "last-drops-at-once", p.n(400, 10_000), round_last_drops));
     }
     out
 }
@@ -1654,7 +1731,7 @@ pub fn run_c03(p: &Params) -> Outcome {
 pub fn run_c04(p: &Params) -> Outcome {
     let mut out = Outcome::default();
     // the lock-exclusion invariant is evaluated by the director in every scenario
-    let all: Vec<Scen> = C04_GUARD_SCENS.iter().chain(C02_SCENS.iter()).chain(C03_SCENS.iter()).copied().collect();
+    let all: Vec<Scen> = C04_GUARD_SCENS.iter().chain(C02_SCENS.iter()).chain(C03_SCENS[..5].iter()).copied().collect();
     out.merge(run_directed("C04", &all, p, sched_budget(p, 200, 1500)));
     out.merge(run_rounds("C04", p, "w1-register", p.n(1_500, 60_000), round_w1));
     out.merge(run_rounds("C04", p, "w2-append-list", p.n(800, 30_000), round_w2));
